@@ -832,6 +832,9 @@ def plan(prop, tier, seed, known):
         jobs += design_jobs("Shrink", ["Shrink"], ["Shrink_big"], [("Shrink_reset", "NoOrphan"), ("Shrink_noresult", "Reclaimed")], q)
         jobs += design_jobs("AllocTxn", ["AllocTxn"], [], [("AllocTxn_byte", "NeverTwice")], q)
         jobs += design_jobs("BlockMap", ["BlockMap"], ["BlockMap_big"], [("BlockMap_noundo", "Covered")], q)
+        for i in range(1 if q else 8):   # the real block map against that model: writes, short writes and truncations with exact free space
+            jobs.append({"name": "bmap%d" % i, "module": "NfsTrace.tla", "cfg": "NfsTrace.cfg", "also_modules": ["BlockMapTrace"],
+                         "driver": ["bmap", "-seed", str(seed * 100 + i), "-steps", "80" if q else "400"]})
         for i in range(1 if q else 12):   # frees running concurrently with other operations, and crash points inside them
             jobs.append(conccrash_job("conccrash%d" % i, seed * 100 + 85 + i, 2 + i % 3, 3 if q else 6, 6 if q else 8, av, 60 if q else 150, 2 if q else 4))
     elif prop == "C10":
